@@ -115,13 +115,24 @@ def _sers():
             hexser.unserialize(hexser.serialize(m_)[0], False)
         except Exception:
             pass
-    return {
-        "json": S.JsonSerializer(), "json.batched": S.JsonSerializer(batched=True),
+    # the transports obtain their serializers from the public factory - so do we (unbatched first,
+    # then the batched variant of the same kind, like a process that serves both subprotocols);
+    # JSON / MsgPack additionally by direct construction in the first _Run of a worker
+    global _SERS_N
+    _SERS_N += 1
+    out = {}
+    for base in ("json", "msgpack", "cbor", "ubjson"):
+        out[base] = S.create_transport_serializer(base)
+        out[base + ".batched"] = S.create_transport_serializer(base + ".batched")
+    if _SERS_N % 2 == 0:
+        out.update({"json": S.JsonSerializer(), "json.batched": S.JsonSerializer(batched=True),
+                    "msgpack": S.MsgPackSerializer(), "msgpack.batched": S.MsgPackSerializer(batched=True),
+                    "cbor": S.CBORSerializer(), "cbor.batched": S.CBORSerializer(batched=True),
+                    "ubjson": S.UBJSONSerializer(), "ubjson.batched": S.UBJSONSerializer(batched=True)})
+    return out
 
-        "msgpack": S.MsgPackSerializer(), "msgpack.batched": S.MsgPackSerializer(batched=True),
-        "cbor": S.CBORSerializer(), "cbor.batched": S.CBORSerializer(batched=True),
-        "ubjson": S.UBJSONSerializer(), "ubjson.batched": S.UBJSONSerializer(batched=True),
-    }
+
+_SERS_N = 0
 
 
 def _klass(cls):
